@@ -34,7 +34,7 @@ theorem flagBit_dataFlags (u b e i : Bool) :
   cases u <;> cases b <;> cases e <;> cases i <;> decide
 
 theorem data_roundtrip (u b e i : Bool) (tsn : BitVec 32) (si ssn : BitVec 16) (ppi : BitVec 32) (ud : Bytes)
-    (h : ud.length + 12 + 4 < 65536) : RoundTrips (.data false u b e i tsn si ssn 0 0 ppi ud) := by
+    (h : ud.length + 12 < 65536) : RoundTrips (.data false u b e i tsn si ssn 0 0 ppi ud) := by
   refine ⟨ctData, dataFlags u b e i, be32 tsn ++ be16 si ++ be16 ssn ++ be32 ppi ++ ud, rfl, by decide,
     by simp; omega, ?_⟩
   obtain ⟨h1, h2, h3, h4⟩ := flagBit_dataFlags u b e i
@@ -52,7 +52,7 @@ theorem data_roundtrip (u b e i : Bool) (tsn : BitVec 32) (si ssn : BitVec 16) (
 
 theorem idata_roundtrip (u b e i : Bool) (tsn : BitVec 32) (si : BitVec 16) (mid fsn ppi : BitVec 32) (ud : Bytes)
     (hb : if b then fsn = 0#32 else ppi = 0#32)
-    (h : ud.length + 16 + 4 < 65536) : RoundTrips (.data true u b e i tsn si (mid.setWidth 16) mid fsn ppi ud) := by
+    (h : ud.length + 16 < 65536) : RoundTrips (.data true u b e i tsn si (mid.setWidth 16) mid fsn ppi ud) := by
   refine ⟨ctIData, dataFlags u b e i,
     be32 tsn ++ be16 si ++ be16 0 ++ be32 mid ++ be32 (if b then ppi else fsn) ++ ud, rfl, by decide,
     by simp; omega, ?_⟩
@@ -167,7 +167,7 @@ theorem flatten_gaps_length (gs : List (BitVec 16 × BitVec 16)) :
   | cons g gs ih => simp only [List.map_cons, List.flatten_cons, List.length_append, be16_length, ih, List.length_cons]; omega
 
 theorem sack_roundtrip (f : Byte) (cum arwnd : BitVec 32) (gaps : List (BitVec 16 × BitVec 16)) (dups : List (BitVec 32))
-    (h : 12 + 4 * gaps.length + 4 * dups.length + 4 < 65536) : RoundTrips (.sack f cum arwnd gaps dups) := by
+    (h : 12 + 4 * gaps.length + 4 * dups.length < 65536) : RoundTrips (.sack f cum arwnd gaps dups) := by
   have hg := flatten_gaps_length gaps
   have hd := flatten_be32_length dups
   refine ⟨ctSack, f, be32 cum ++ be32 arwnd ++ be16 (trunc16 gaps.length) ++ be16 (trunc16 dups.length)
@@ -247,7 +247,7 @@ theorem flatten_streams_length (ss : List (BitVec 16 × BitVec 16)) :
     ((ss.map fun s => be16 s.1 ++ be16 s.2).flatten).length = 4 * ss.length := flatten_gaps_length ss
 
 theorem forwardTsn_roundtrip (f : Byte) (cum : BitVec 32) (ss : List (BitVec 16 × BitVec 16))
-    (h : 4 + 4 * ss.length + 4 < 65536) : RoundTrips (.forwardTsn f cum ss) := by
+    (h : 4 + 4 * ss.length < 65536) : RoundTrips (.forwardTsn f cum ss) := by
   have hl := flatten_streams_length ss
   refine ⟨ctForwardTSN, f, be32 cum ++ (ss.map fun s => be16 s.1 ++ be16 s.2).flatten, rfl, by decide,
     by simp [hl]; omega, ?_⟩
@@ -361,7 +361,7 @@ theorem decHeartbeatParam_roundtrip (i : Bytes) (h : i.length + 4 < 65536) (e1 e
   rw [hsf]
   simp
 
-theorem heartbeat_roundtrip (i : Bytes) (h : i.length + 4 + 4 < 65536) : RoundTrips (.heartbeat [.heartbeatInfo i]) := by
+theorem heartbeat_roundtrip (i : Bytes) (h : i.length + 4 < 65536) : RoundTrips (.heartbeat [.heartbeatInfo i]) := by
   refine ⟨ctHeartbeat, 0#8, encParam (.heartbeatInfo i), rfl, by decide,
     by simp [encParam, paramHeaderMarshal_length]; omega, ?_⟩
   unfold decBody
@@ -378,7 +378,7 @@ theorem heartbeatEmpty_roundtrip (f : Byte) : RoundTrips (.heartbeatEmpty ctHear
   unfold decHeartbeat
   simp
 
-theorem heartbeatAck_roundtrip (f : Byte) (i : Bytes) (h : i.length + 4 + 4 < 65536) :
+theorem heartbeatAck_roundtrip (f : Byte) (i : Bytes) (h : i.length + 4 < 65536) :
     RoundTrips (.heartbeatAck f [.heartbeatInfo i]) := by
   refine ⟨ctHeartbeatAck, f, encParam (.heartbeatInfo i), rfl, by decide,
     by simp [encParam, paramHeaderMarshal_length]; omega, ?_⟩
@@ -568,7 +568,7 @@ theorem initCommon_roundtrip (c : InitCommon) (hwf : ∀ p ∈ c.params, CodecSp
 
 theorem init_roundtrip (ack : Bool) (c : InitCommon) (hwf : wfInit c = true) :
     RoundTrips (if ack then .initAck 0#8 c else .init 0#8 c) := by
-  simp only [wfInit, Bool.and_eq_true, List.all_eq_true, List.isEmpty_iff, fits_iff, paramLen, decide_eq_true_eq] at hwf
+  simp only [wfInit, Bool.and_eq_true, List.all_eq_true, List.isEmpty_iff, fitsV_iff, paramLen, decide_eq_true_eq] at hwf
   obtain ⟨⟨⟨hp, hu⟩, hl⟩, hfit⟩ := hwf
   have hlast : ∀ p, c.params.getLast? = some p → 4 < (encParam p).length := by
     intro p hpl; rw [hpl] at hl; simpa using hl
